@@ -138,13 +138,20 @@ def run_case(case, stats: Counter):
     sigs = []
     evals = 0
     exc_type = FAULT_TYPES[case["exc"]]
+    agg = TOOLS[tool].kind == "agg"
     for kind, index, uses in probes:
         for k in range(1, uses + 1):
             evals += 1
             exc_s = exc_type("injected")
+            stop_pair = agg and kind == "fn" and (k + len(spec["srcs"][0])) % 4 == 0
+            if stop_pair:
+                # aggregations are coroutines, not generators: an end-of-iteration exception raised by a user
+                # CALLABLE is an ordinary error there (the twin gets StopIteration, asyncstdlib StopAsyncIteration)
+                exc_s = StopIteration("injected")
+                stats["stop_iteration_from_callable"] += 1
             sync = run_sync_side(spec, fault=Fault(kind, index, k, exc_s, case["phase"]), steps=steps, log=False,
                                  gen_twin=gen_twin, ops=ops)
-            exc_a = exc_type("injected")
+            exc_a = StopAsyncIteration("injected") if stop_pair else exc_type("injected")
             asy = run_async_side(spec, flavours=flav, fn_flavours=[fnfl] * nfn, steps=steps, log=False,
                                  fault=Fault(kind, index, k, exc_a, case["phase"]), outer_flavour=outer, ops=ops)
             if tool == "tee":
@@ -174,6 +181,9 @@ def run_case(case, stats: Counter):
             problem = None
             if list(sync.out) != list(asy.out):
                 problem = "items"
+            elif stop_pair and len(sync.term) == 3 and len(asy.term) == 3 and sync.term[0] == asy.term[0] == "raise" \
+                    and sync.term[2] and asy.term[2]:
+                pass  # both raised their injected object (the type names differ by construction)
             elif tuple(sync.term) != tuple(asy.term):
                 problem = "termination"
             elif probe.use_after_fault and tool != "tee":
